@@ -20,8 +20,17 @@ def one(p):
             j = json.loads(r.stdout.strip().splitlines()[-1])
         except Exception:
             return p, "?? " + r.stderr[-300:]
+        sys.path.insert(0, V)
+        from sa.core import UNDECIDABLE_REFACTORS
+        rid = p.split("/")[-2]
         bad = {}
         for k, v in j.items():
+            if k in UNDECIDABLE_REFACTORS.get(rid, ()) and not v["error"] \
+                    and v["undecided"] and not [
+                        x for x in v["violated"]
+                        if "no-uniqueness" not in x and
+                        "Plane.XZ:axes='sxyz':angle_position=1" not in x]:
+                continue       # listed: honest "cannot decide" (core.py)
             viol = [x for x in v["violated"] if "no-uniqueness" not in x and "Plane.XZ:axes='sxyz':angle_position=1" not in x]
             if viol or v["error"] or v["undecided"]:
                 bad[k] = {"violated": viol, "error": v["error"], "undecided": v["undecided"]}
